@@ -174,7 +174,7 @@ def worker(shard, nshards, tier, seed):
 
 
 def run(tier, seed):
-    acc = parallel(worker, tier, seed)
+    acc = parallel(worker, tier, seed, warm_pass=True)
     cov = {
         "states": acc.n["schemas"],
         "transitions": acc.n["operations"],
